@@ -4,19 +4,23 @@ import EdpVerif.Lemmas.Codec
 import EdpVerif.Lemmas.Control
 import EdpVerif.Lemmas.Frag
 import EdpVerif.Lemmas.DecNoPanic
+import EdpVerif.Lemmas.RecvHeader
 /-! Helper lemmas and vocabulary for C06 (the receive path, `Impl/Recv.lean`). -/
 namespace Edp.Recv
 open Edp Edp.Spec.Peer
 
 /-! ### vocabulary of the theorems -/
 
-/-- the term decoder reads the bytes `bs` as the term `t` under atom cache `c` at nesting depth `d`, wherever they stand:
+/-- the table `ATOM_CACHE_REF` reads (`AtomCache::get`): header position ↦ atom (`DistHeader.Cache.atoms`, `DecCfg.cache`) -/
+abbrev PosTable := List (Nat × Bytes)
+
+/-- the term decoder reads the bytes `bs` as the term `t` under atom table `c` at nesting depth `d`, wherever they stand:
 whatever follows them is handed back, any sufficient fuel will do. This is what C01/C03 establish for the output of an
 encoder; C06 takes it as the meaning of "`bs` are the bytes of `t`". -/
-def ReadsAt (x : Ext) (c : Cache) (d : Nat) (bs : Bytes) (t : Term) : Prop :=
+def ReadsAt (x : Ext) (c : PosTable) (d : Nat) (bs : Bytes) (t : Term) : Prop :=
   ∀ (r : Bytes) (fuel : Nat), bs.length + r.length < fuel → dec x { cache := c } fuel d (bs ++ r) = .ok (t, r)
 
-abbrev Reads (x : Ext) (c : Cache) (bs : Bytes) (t : Term) : Prop := ReadsAt x c 0 bs t
+abbrev Reads (x : Ext) (c : PosTable) (bs : Bytes) (t : Term) : Prop := ReadsAt x c 0 bs t
 
 /-- a message as the peer means it: the control tuple `ct` (bytes `cb`), which the library presents as `msg`, and
 optionally a payload term `p` (bytes `pb`) -/
@@ -32,7 +36,7 @@ def Sent.wire (m : Sent) : Wire := { ctl := m.cb, pay := m.pay.map (·.1) }
 def Sent.expected (m : Sent) : Res := .ok m.msg (m.pay.map (·.2))
 
 /-- the bytes are the terms' bytes under cache `c`, and the control tuple is the control message -/
-structure Sent.Conforms (x : Ext) (tbl : Control.Table) (c : Cache) (m : Sent) : Prop where
+structure Sent.Conforms (x : Ext) (tbl : Control.Table) (c : PosTable) (m : Sent) : Prop where
   ctl : Reads x c m.cb m.ct
   pay : ∀ pb p, m.pay = some (pb, p) → Reads x c pb p
   parse : Control.parse tbl m.ct = .ok m.msg
@@ -40,24 +44,81 @@ structure Sent.Conforms (x : Ext) (tbl : Control.Table) (c : Cache) (m : Sent) :
 /-- the term decoder never reaches its panic site (`&rest[consumed..]` after inflating); see `noDecPanic_of_inflate` -/
 def NoDecPanic (x : Ext) : Prop := ∀ (cfg : DecCfg) (fuel d : Nat) (bs : Bytes), dec x cfg fuel d bs ≠ .error .panic
 
-/-- the result of a frame does not depend on the connection's state -/
+/-- the result of a frame does not depend on the connection's state (nor on the clock) -/
 def SelfContained (x : Ext) (tbl : Control.Table) (f : Bytes) : Prop :=
-  ∀ s s' : St, (recv x tbl s f).2 = (recv x tbl s' f).2
+  ∀ (now now' : Nat) (s s' : St), (recv x tbl now s f).2 = (recv x tbl now' s' f).2
 
-/-! ### ticks, `cutPanic` -/
+/-- the clock never runs backwards along a history -/
+def Mono (tfs : List TFrame) : Prop := tfs.Pairwise (fun a b => a.1 ≤ b.1)
 
-theorem recv_tick (x : Ext) (tbl : Control.Table) (s : St) : recv x tbl s [] = (s, none) := rfl
+/-- the bodies of a timed history -/
+abbrev bodies (tfs : List TFrame) : List Bytes := tfs.map (·.2)
+
+/-- all frames read at the same instant (the driver's histories) -/
+def atTime (now : Nat) (fs : List Bytes) : List TFrame := fs.map fun f => (now, f)
+
+/-! ### ticks, `cutPanic`, the clock -/
+
+theorem recv_tick (x : Ext) (tbl : Control.Table) (now : Nat) (s : St) : recv x tbl now s [] = (expire now s, none) := rfl
 
 theorem cutPanic_map_expected (l : List Sent) : cutPanic (l.map Sent.expected) = l.map Sent.expected := by
   induction l with
   | nil => rfl
   | cons m ms ih => simp [Sent.expected, cutPanic, ih]
 
-theorem outs_append (x : Ext) (tbl : Control.Table) (a b : List Bytes) : ∀ s,
+theorem outs_append (x : Ext) (tbl : Control.Table) (a b : List TFrame) : ∀ s,
     outs x tbl s (a ++ b) = outs x tbl s a ++ outs x tbl (after x tbl s a) b := by
   induction a with
   | nil => intro s; simp [outs, after]
   | cons f fs ih => intro s; simp [outs, after, ih]
+
+theorem isExpired_mono (m : Frag.FragMsg) (t t' timeout : Nat) (h : t ≤ t') (he : m.isExpired t timeout = true) :
+    m.isExpired t' timeout = true := by
+  simp only [Frag.FragMsg.isExpired, decide_eq_true_eq] at he ⊢
+  omega
+
+/-- what an earlier `cleanup_expired` dropped, a later one drops too -/
+theorem expire_expire (t t' : Nat) (s : St) (h : t ≤ t') : expire t' (expire t s) = expire t' s := by
+  simp only [expire, Frag.Assembler.cleanupExpired, List.filter_filter]
+  congr 2
+  apply List.filter_congr
+  intro p _
+  by_cases he : p.2.isExpired t s.asm.timeout = true
+  · simp [isExpired_mono p.2 t t' s.asm.timeout h he]
+  · simp [he]
+
+theorem recv_expire (x : Ext) (tbl : Control.Table) (t t' : Nat) (s : St) (f : Bytes) (h : t ≤ t') :
+    recv x tbl t' (expire t s) f = recv x tbl t' s f := by
+  simp only [recv, expire_expire t t' s h]
+
+theorem outs_expire (x : Ext) (tbl : Control.Table) (t : Nat) (s : St) (l : List TFrame) (h : ∀ f ∈ l, t ≤ f.1) :
+    outs x tbl (expire t s) l = outs x tbl s l := by
+  cases l with
+  | nil => rfl
+  | cons f fs => simp only [outs, recv_expire x tbl t f.1 s f.2 (h f (by simp))]
+
+theorem expire_cache (now : Nat) (s : St) : (expire now s).cache = s.cache := rfl
+
+theorem lookup_filter_none (q : Nat) (f : Nat × Frag.FragMsg → Bool) : ∀ (l : Frag.PMap), Frag.lookup q l = none →
+    Frag.lookup q (l.filter f) = none := by
+  intro l
+  induction l with
+  | nil => intro _; rfl
+  | cons p r ih =>
+    intro h
+    obtain ⟨k, m⟩ := p
+    by_cases hk : k = q
+    · simp [Frag.lookup, hk] at h
+    · simp only [Frag.lookup, hk, ↓reduceIte] at h
+      by_cases hf : f (k, m) = true
+      · simp [List.filter_cons, hf, Frag.lookup, hk, ih h]
+      · simp [List.filter_cons, hf, ih h]
+
+/-- a sequence id the assembler holds nothing for: still nothing after `cleanup_expired` -/
+theorem lookup_expire_none (now : Nat) (s : St) (q : Nat) (h : Frag.lookup q s.asm.pending = none) :
+    Frag.lookup q (expire now s).asm.pending = none := by
+  simp only [expire, Frag.Assembler.cleanupExpired]
+  exact lookup_filter_none q _ _ h
 
 /-! ### pass-through -/
 
@@ -67,46 +128,70 @@ theorem decodeTrailing_reads (x : Ext) (bs r : Bytes) (t : Term) (h : Reads x []
   simp only [decodeTrailing]
   simpa using this
 
-theorem recv_passThrough (x : Ext) (tbl : Control.Table) (s : St) (m : Sent) (h : m.Conforms x tbl []) :
-    recv x tbl s (Spec.Peer.passThrough m.wire) = (s, some m.expected) := by
+theorem dispatch_passThrough (x : Ext) (tbl : Control.Table) (now : Nat) (s : St) (m : Sent) (h : m.Conforms x tbl []) :
+    dispatch x tbl now s (Spec.Peer.passThrough m.wire) = (s, some m.expected) := by
   obtain ⟨hc, hp, hparse⟩ := h
   cases hpay : m.pay with
   | none =>
     have e := decodeTrailing_reads x m.cb [] m.ct hc
     simp only [List.append_nil] at e
-    simp [Spec.Peer.passThrough, recv, Sent.wire, hpay, passThroughBody, e, finish, hparse, Sent.expected]
+    simp [Spec.Peer.passThrough, dispatch, Sent.wire, hpay, passThroughBody, e, finish, hparse, Sent.expected]
   | some pp =>
     obtain ⟨pb, p⟩ := pp
     have e := decodeTrailing_reads x m.cb (131 :: pb) m.ct hc
     have e2 := decodeTrailing_reads x pb [] p (hp pb p hpay)
     simp only [List.append_nil] at e2
-    simp [Spec.Peer.passThrough, recv, Sent.wire, hpay, passThroughBody, e, e2, finish, hparse, Sent.expected]
+    simp [Spec.Peer.passThrough, dispatch, Sent.wire, hpay, passThroughBody, e, e2, finish, hparse, Sent.expected]
+
+theorem recv_passThrough (x : Ext) (tbl : Control.Table) (now : Nat) (s : St) (m : Sent) (h : m.Conforms x tbl []) :
+    recv x tbl now s (Spec.Peer.passThrough m.wire) = (expire now s, some m.expected) :=
+  dispatch_passThrough x tbl now _ m h
 
 /-! ### ticks anywhere -/
 
 theorem isTick_nil : isTick ([] : Bytes) = true := rfl
 theorem isTick_cons (a : UInt8) (r : Bytes) : isTick (a :: r) = false := rfl
 
-theorem outs_ticks (x : Ext) (tbl : Control.Table) (fs : List Bytes) : ∀ s,
-    (outs x tbl s fs).filterMap id = (outs x tbl s (fs.filter (fun f => !isTick f))).filterMap id := by
-  induction fs with
+/-- the frames of a timed history that are no ticks -/
+def noTicks (tfs : List TFrame) : List TFrame := tfs.filter (fun f => !isTick f.2)
+
+theorem bodies_noTicks (tfs : List TFrame) : bodies (noTicks tfs) = (bodies tfs).filter (fun f => !isTick f) := by
+  induction tfs with
+  | nil => rfl
+  | cons f fs ih =>
+    by_cases h : isTick f.2 = true
+    · simp only [noTicks, bodies] at ih ⊢
+      simp [List.filter_cons, h, ih]
+    · simp only [noTicks, bodies] at ih ⊢
+      simp [List.filter_cons, h, ih]
+
+theorem outs_ticks (x : Ext) (tbl : Control.Table) (tfs : List TFrame) (hm : Mono tfs) : ∀ s,
+    (outs x tbl s tfs).filterMap id = (outs x tbl s (noTicks tfs)).filterMap id := by
+  induction tfs with
   | nil => intro s; rfl
   | cons f fs ih =>
     intro s
-    cases f with
+    obtain ⟨t, body⟩ := f
+    have hm' : Mono fs := (List.pairwise_cons.mp hm).2
+    have hle : ∀ g ∈ fs, t ≤ g.1 := (List.pairwise_cons.mp hm).1
+    cases body with
     | nil =>
-      rw [List.filter_cons]
-      simp only [isTick_nil, Bool.not_true, Bool.false_eq_true, ↓reduceIte, outs, recv_tick]
+      have e : noTicks ((t, []) :: fs) = noTicks fs := by simp [noTicks, List.filter_cons, isTick_nil]
+      rw [e]
+      simp only [outs, recv_tick]
       rw [List.filterMap_cons]
-      exact ih s
+      simp only [id_eq]
+      rw [ih hm' (expire t s)]
+      rw [outs_expire x tbl t s (noTicks fs) (fun g hg => hle g (List.mem_filter.mp hg).1)]
     | cons a r =>
-      rw [List.filter_cons]
-      simp only [isTick_cons, Bool.not_false, ↓reduceIte, outs]
-      rw [List.filterMap_cons, List.filterMap_cons, ih]
+      have e : noTicks ((t, a :: r) :: fs) = (t, a :: r) :: noTicks fs := by simp [noTicks, List.filter_cons, isTick_cons]
+      rw [e]
+      simp only [outs]
+      rw [List.filterMap_cons, List.filterMap_cons, ih hm']
 
-theorem recvAll_ticks (x : Ext) (tbl : Control.Table) (s : St) (fs : List Bytes) :
-    recvAll x tbl s fs = recvAll x tbl s (fs.filter (fun f => !isTick f)) := by
-  simp only [recvAll, outs_ticks x tbl fs s]
+theorem recvAll_ticks (x : Ext) (tbl : Control.Table) (s : St) (tfs : List TFrame) (hm : Mono tfs) :
+    recvAll x tbl s tfs = recvAll x tbl s (noTicks tfs) := by
+  simp only [recvAll, outs_ticks x tbl tfs hm s]
 
 theorem recvRH_tick (x : Ext) (tbl : Control.Table) : recvRH x tbl [] = none := rfl
 
@@ -130,14 +215,46 @@ theorem recvAllRH_ticks (x : Ext) (tbl : Control.Table) (fs : List Bytes) :
 
 /-! ### histories of pass-through messages -/
 
-theorem outs_passThrough (x : Ext) (tbl : Control.Table) (s : St) (msgs : List Sent) (h : ∀ m ∈ msgs, m.Conforms x tbl []) :
-    outs x tbl s (msgs.map fun m => Spec.Peer.passThrough m.wire) = msgs.map fun m => some m.expected := by
-  induction msgs with
-  | nil => rfl
-  | cons m ms ih =>
-    have hm := recv_passThrough x tbl s m (h m (by simp))
-    simp only [List.map_cons, outs, hm]
-    rw [ih (fun m' hm' => h m' (by simp [hm']))]
+/-- splitting a history with ticks at its first frame: a tick leaves the expected frame list alone, any other frame is
+its head -/
+theorem withTicks_cons {t : Nat} {f : Bytes} {rest : List TFrame} {frames : List Bytes}
+    (h : WithTicks (bodies ((t, f) :: rest)) frames) :
+    (f = [] ∧ WithTicks (bodies rest) frames) ∨ (f ≠ [] ∧ ∃ fr, frames = f :: fr ∧ WithTicks (bodies rest) fr) := by
+  cases f with
+  | nil =>
+    left
+    refine ⟨rfl, ?_⟩
+    simpa [WithTicks, bodies, List.filter_cons, isTick_nil] using h
+  | cons a r =>
+    right
+    refine ⟨by simp, ?_⟩
+    simp only [WithTicks, bodies, List.map_cons, List.filter_cons, isTick_cons, Bool.not_false, ↓reduceIte] at h
+    exact ⟨_, h.symm, rfl⟩
+
+theorem filterMap_outs_passThrough (x : Ext) (tbl : Control.Table) (tfs : List TFrame) : ∀ (msgs : List Sent) (s : St),
+    (∀ m ∈ msgs, m.Conforms x tbl []) → WithTicks (bodies tfs) (msgs.map fun m => Spec.Peer.passThrough m.wire) →
+    (outs x tbl s tfs).filterMap id = msgs.map Sent.expected := by
+  induction tfs with
+  | nil =>
+    intro msgs s _ hw
+    have : msgs = [] := by simpa [WithTicks, bodies] using hw.symm
+    subst this; rfl
+  | cons tf rest ih =>
+    intro msgs s hc hw
+    obtain ⟨t, f⟩ := tf
+    rcases withTicks_cons hw with ⟨rfl, hw'⟩ | ⟨_, fr, hfr, hw'⟩
+    · simp only [outs, recv_tick]
+      rw [List.filterMap_cons]
+      exact ih msgs _ hc hw'
+    · cases msgs with
+      | nil => simp at hfr
+      | cons m ms =>
+        simp only [List.map_cons, List.cons.injEq] at hfr
+        obtain ⟨rfl, rfl⟩ := hfr
+        simp only [outs, recv_passThrough x tbl t s m (hc m (by simp))]
+        rw [List.filterMap_cons]
+        simp only [id_eq, List.map_cons]
+        rw [ih ms _ (fun m' hm' => hc m' (by simp [hm'])) hw']
 
 theorem recvRH_passThrough (x : Ext) (tbl : Control.Table) (m : Sent) (h : m.Conforms x tbl []) :
     recvRH x tbl (Spec.Peer.passThrough m.wire) = some m.expected := by
@@ -169,34 +286,38 @@ theorem filterMap_recvRH_passThrough (x : Ext) (tbl : Control.Table) (msgs : Lis
 
 /-! ### frames whose result does not depend on the state; isolation -/
 
-theorem recv_112 (x : Ext) (tbl : Control.Table) (s : St) (r : Bytes) :
-    recv x tbl s (112 :: r) = (s, some (passThroughBody x tbl r)) := by
+theorem dispatch_112 (x : Ext) (tbl : Control.Table) (now : Nat) (s : St) (r : Bytes) :
+    dispatch x tbl now s (112 :: r) = (s, some (passThroughBody x tbl r)) := by
   cases r with
-  | nil => simp [recv]
-  | cons b rest => simp [recv]
+  | nil => simp [dispatch]
+  | cons b rest => simp [dispatch]
 
-theorem selfContained_tick (x : Ext) (tbl : Control.Table) : SelfContained x tbl [] := fun _ _ => rfl
+theorem recv_112 (x : Ext) (tbl : Control.Table) (now : Nat) (s : St) (r : Bytes) :
+    recv x tbl now s (112 :: r) = (expire now s, some (passThroughBody x tbl r)) :=
+  dispatch_112 x tbl now _ r
+
+theorem selfContained_tick (x : Ext) (tbl : Control.Table) : SelfContained x tbl [] := fun _ _ _ _ => rfl
 
 theorem selfContained_112 (x : Ext) (tbl : Control.Table) (r : Bytes) : SelfContained x tbl (112 :: r) := by
-  intro s s'; simp [recv_112]
+  intro now now' s s'; simp [recv_112]
 
 /-- what later self-contained frames return does not depend on the state they start from -/
-theorem outs_selfContained (x : Ext) (tbl : Control.Table) (g : List Bytes) (h : ∀ f ∈ g, SelfContained x tbl f) :
+theorem outs_selfContained (x : Ext) (tbl : Control.Table) (g : List TFrame) (h : ∀ f ∈ g, SelfContained x tbl f.2) :
     ∀ s s' : St, outs x tbl s g = outs x tbl s' g := by
   induction g with
   | nil => intro s s'; rfl
   | cons f fs ih =>
     intro s s'
     simp only [outs]
-    rw [h f (by simp) s s', ih (fun f' hf' => h f' (by simp [hf'])) (recv x tbl s f).1 (recv x tbl s' f).1]
+    rw [h f (by simp) f.1 f.1 s s', ih (fun f' hf' => h f' (by simp [hf'])) (recv x tbl f.1 s f.2).1 (recv x tbl f.1 s' f.2).1]
 
-theorem outs_insert (x : Ext) (tbl : Control.Table) (s : St) (g1 g2 : List Bytes) (junk : Bytes)
-    (h2 : ∀ f ∈ g2, SelfContained x tbl f) :
+theorem outs_insert (x : Ext) (tbl : Control.Table) (s : St) (g1 g2 : List TFrame) (junk : TFrame)
+    (h2 : ∀ f ∈ g2, SelfContained x tbl f.2) :
     outs x tbl s (g1 ++ junk :: g2) =
-      outs x tbl s g1 ++ (recv x tbl (after x tbl s g1) junk).2 :: outs x tbl (after x tbl s g1) g2 := by
+      outs x tbl s g1 ++ (recv x tbl junk.1 (after x tbl s g1) junk.2).2 :: outs x tbl (after x tbl s g1) g2 := by
   rw [outs_append]
   simp only [outs]
-  rw [outs_selfContained x tbl g2 h2 (recv x tbl (after x tbl s g1) junk).1 (after x tbl s g1)]
+  rw [outs_selfContained x tbl g2 h2 (recv x tbl junk.1 (after x tbl s g1) junk.2).1 (after x tbl s g1)]
 
 /-! ### no panic -/
 
@@ -243,67 +364,9 @@ theorem decodeTrailing_ne_panic {x : Ext} (hx : NoDecPanic x) (data : Bytes) : d
     · simp
     · exact hx _ _ _ _
 
-theorem refsLoop_ne_panic (flags : Bytes) (long : Bool) : ∀ (k i : Nat) (c : Cache) (bs : Bytes),
-    (refsLoop flags long k i c bs).2 ≠ .error .panic := by
-  intro k
-  induction k with
-  | zero => intro i c bs; simp [refsLoop]
-  | succ k ih =>
-    intro i c bs
-    unfold refsLoop
-    split
-    · rename_i e he; simp; intro h; exact rdU_ne_panic _ _ (h ▸ he)
-    · split
-      · split
-        · rename_i e he; simp; intro h; exact rdU_ne_panic _ _ (h ▸ he)
-        · split
-          · rename_i e he; simp; intro h; exact takeE_ne_panic _ _ (h ▸ he)
-          · split
-            · exact ih _ _ _
-            · simp
-      · exact ih _ _ _
-
-theorem parseDistHeader_ne_panic (c : Cache) (bs : Bytes) : (parseDistHeader c bs).2 ≠ .error .panic := by
-  unfold parseDistHeader
-  split
-  · rename_i e he; simp; intro h; exact rdU_ne_panic _ _ (h ▸ he)
-  · split
-    · simp
-    · split
-      · rename_i e he; simp; intro h; exact takeE_ne_panic _ _ (h ▸ he)
-      · exact refsLoop_ne_panic _ _ _ _ _ _
-
-theorem firstTerm_ne_panic {x : Ext} (hx : NoDecPanic x) (fuel : Nat) (c : Cache) (tag : UInt8) (r1 : Bytes) :
-    (firstTerm x fuel c tag r1).2 ≠ .error .panic := by
-  unfold firstTerm
-  split
-  · have hp := parseDistHeader_ne_panic c r1
-    split
-    · rename_i c1 e he; rw [he] at hp; simpa using hp
-    · exact hx _ _ _ _
-  · exact hx _ _ _ _
-
-theorem secondTerm_ne_panic {x : Ext} (hx : NoDecPanic x) (fuel : Nat) (c1 : Cache) (first : DRes)
-    (h : first ≠ .error .panic) : secondTerm x fuel c1 first ≠ .error .panic := by
-  unfold secondTerm
-  split
-  · rename_i e; intro h'; simp at h'; exact h (by rw [h'])
-  · simp
-  · split
-    · rename_i e he; intro h'; simp at h'; exact hx _ _ _ _ (h' ▸ he)
-    · simp
-    · simp
-
 theorem decodeWithAtomCache_ne_panic {x : Ext} (hx : NoDecPanic x) (c : Cache) (data : Bytes) :
-    (decodeWithAtomCache x c data).2 ≠ .error .panic := by
-  unfold decodeWithAtomCache
-  split
-  · simp
-  · split
-    · simp
-    · split
-      · simp
-      · exact secondTerm_ne_panic hx _ _ _ (firstTerm_ne_panic hx _ _ _ _)
+    (DistHeader.decodeWithAtomCache x c data).2 ≠ .error .panic :=
+  DistHeader.decodeWithAtomCache_np x hx c data
 
 theorem decodeFragmentHeader_err {data : Bytes} {e : DErr} (h : decodeFragmentHeader data = .error e) : e = .err := by
   unfold decodeFragmentHeader at h
@@ -377,9 +440,9 @@ theorem deliver_ne_panic {x : Ext} (hx : NoDecPanic x) {tbl : Control.Table} (ht
   · simpa using decodeCompleteFragment_ne_panic hx htbl _ _
   · simp
 
-theorem recv_ne_panic {x : Ext} (hx : NoDecPanic x) {tbl : Control.Table} (htbl : Control.TableOK tbl) (s : St) (data : Bytes) :
-    (recv x tbl s data).2 ≠ some .panic := by
-  unfold recv
+theorem dispatch_ne_panic {x : Ext} (hx : NoDecPanic x) {tbl : Control.Table} (htbl : Control.TableOK tbl) (now : Nat) (s : St)
+    (data : Bytes) : (dispatch x tbl now s data).2 ≠ some .panic := by
+  unfold dispatch
   split
   · simp
   · split
@@ -405,6 +468,10 @@ theorem recv_ne_panic {x : Ext} (hx : NoDecPanic x) {tbl : Control.Table} (htbl 
           · unfold recvHeader
             simpa using finishE_ne_panic htbl _ (decodeWithAtomCache_ne_panic hx s.cache _)
           · simp
+
+theorem recv_ne_panic {x : Ext} (hx : NoDecPanic x) {tbl : Control.Table} (htbl : Control.TableOK tbl) (now : Nat) (s : St)
+    (data : Bytes) : (recv x tbl now s data).2 ≠ some .panic :=
+  dispatch_ne_panic hx htbl now _ data
 
 theorem recvRH_ne_panic {x : Ext} (hx : NoDecPanic x) {tbl : Control.Table} (htbl : Control.TableOK tbl) (data : Bytes) :
     recvRH x tbl data ≠ some .panic := by
@@ -450,303 +517,266 @@ theorem decodeFragmentCont_ok (seq fid : Nat) (rest : Bytes) (hs : seq < 2 ^ 64)
   rw [rdU_be64 fid _ (by simpa using hf)]
   simp
 
-theorem startFragment_single (a : Frag.Assembler) (seq : Nat) (data : Bytes) (h0 : Frag.lookup seq a.pending = none) :
-    a.startFragment 0 seq 1 none data = (a, some data) := by
+theorem startFragment_single (a : Frag.Assembler) (now seq : Nat) (data : Bytes) (h0 : Frag.lookup seq a.pending = none) :
+    a.startFragment now seq 1 none data = (a, some data) := by
   simp [Frag.Assembler.startFragment, h0, Frag.MAX_FRAGMENT_COUNT, Frag.FragMsg.new, Frag.MAX_FRAGMENTS_VEC,
     Frag.FragMsg.addFragment, Frag.FragMsg.place, Frag.FragMsg.isComplete, Frag.FragMsg.reassemble]
 
 theorem decodeCompleteFragment_header (x : Ext) (tbl : Control.Table) (c : Cache) (r : Bytes) :
     decodeCompleteFragment x tbl c (131 :: 68 :: r) =
-      ((decodeWithAtomCache x c (131 :: 68 :: r)).1, finishE tbl (decodeWithAtomCache x c (131 :: 68 :: r)).2) := by
+      ((DistHeader.decodeWithAtomCache x c (131 :: 68 :: r)).1, finishE tbl (DistHeader.decodeWithAtomCache x c (131 :: 68 :: r)).2) := by
   simp [decodeCompleteFragment]
 
-theorem recv_header_frame (x : Ext) (tbl : Control.Table) (s : St) (r : Bytes) :
-    recv x tbl s (131 :: 68 :: r) = recvHeader x tbl s (131 :: 68 :: r) := by
-  simp [recv]
+theorem dispatch_header_frame (x : Ext) (tbl : Control.Table) (now : Nat) (s : St) (r : Bytes) :
+    dispatch x tbl now s (131 :: 68 :: r) = recvHeader x tbl s (131 :: 68 :: r) := by
+  simp [dispatch]
 
-/-- a message in one fragment is handled exactly like the same message without fragmentation -/
-theorem recv_single_fragment (x : Ext) (tbl : Control.Table) (s : St) (seq : Nat) (nb : UInt8) (rest : Bytes)
+theorem recv_header_frame (x : Ext) (tbl : Control.Table) (now : Nat) (s : St) (r : Bytes) :
+    recv x tbl now s (131 :: 68 :: r) = recvHeader x tbl (expire now s) (131 :: 68 :: r) :=
+  dispatch_header_frame x tbl now _ r
+
+theorem dispatch_single_fragment (x : Ext) (tbl : Control.Table) (now : Nat) (s : St) (seq : Nat) (nb : UInt8) (rest : Bytes)
     (hs : seq < 2 ^ 64) (h0 : Frag.lookup seq s.asm.pending = none) :
-    recv x tbl s (131 :: 69 :: (be64 seq ++ be64 1 ++ nb :: rest)) = recv x tbl s (131 :: 68 :: nb :: rest) := by
-  rw [recv_header_frame]
-  have e1 : recv x tbl s (131 :: 69 :: (be64 seq ++ be64 1 ++ nb :: rest)) =
-      recvFragHeader x tbl s (131 :: 69 :: (be64 seq ++ be64 1 ++ nb :: rest)) := by simp [recv]
+    dispatch x tbl now s (131 :: 69 :: (be64 seq ++ be64 1 ++ nb :: rest)) = dispatch x tbl now s (131 :: 68 :: nb :: rest) := by
+  rw [dispatch_header_frame]
+  have e1 : dispatch x tbl now s (131 :: 69 :: (be64 seq ++ be64 1 ++ nb :: rest)) =
+      recvFragHeader x tbl now s (131 :: 69 :: (be64 seq ++ be64 1 ++ nb :: rest)) := by simp [dispatch]
   rw [e1, recvFragHeader, decodeFragmentHeader_ok seq 1 nb rest hs (by omega)]
   simp only [Nat.one_ne_zero, ↓reduceIte, UInt8.ofNat_toNat]
-  rw [startFragment_single _ _ _ h0]
+  rw [startFragment_single _ _ _ _ h0]
   simp only [deliver, recvHeader, decodeCompleteFragment_header]
 
-/-! ### the distribution header of a positional sender -/
+/-- a message in one fragment is handled exactly like the same message without fragmentation -/
+theorem recv_single_fragment (x : Ext) (tbl : Control.Table) (now : Nat) (s : St) (seq : Nat) (nb : UInt8) (rest : Bytes)
+    (hs : seq < 2 ^ 64) (h0 : Frag.lookup seq s.asm.pending = none) :
+    recv x tbl now s (131 :: 69 :: (be64 seq ++ be64 1 ++ nb :: rest)) = recv x tbl now s (131 :: 68 :: nb :: rest) :=
+  dispatch_single_fragment x tbl now _ seq nb rest hs (lookup_expire_none now s seq h0)
 
-/-- the cache after the header's references were inserted one after the other, starting at index `i` -/
-def insAtoms : Nat → List Bytes → Cache → Cache
-  | _, [], c => c
-  | i, a :: as, c => insAtoms (i + 1) as ((i, a) :: c)
+/-! ### messages of a conforming sender with an atom cache (the sender of `Spec/DistHeader.lean`, property C14) -/
 
-/-- the cache holds the header's atoms at their positions -/
-def Holds (c : Cache) (atoms : List Bytes) : Prop := ∀ i, i < atoms.length → c.lookup i = atoms[i]?
+section cached
+open Edp.Spec.DistHeader Edp.DistHeader Edp.Props.C14
 
-theorem lookup_insAtoms : ∀ (as : List Bytes) (i : Nat) (c : Cache) (j : Nat),
-    (insAtoms i as c).lookup j = if i ≤ j ∧ j < i + as.length then as[j - i]? else c.lookup j := by
-  intro as
-  induction as with
-  | nil => intro i c j; simp [insAtoms]; omega
-  | cons a as ih =>
-    intro i c j
-    simp only [insAtoms, ih, List.length_cons]
-    by_cases h1 : i + 1 ≤ j ∧ j < i + 1 + as.length
-    · have h2 : i ≤ j ∧ j < i + (as.length + 1) := by omega
-      simp only [h1, h2, and_self, ↓reduceIte]
-      have : j - i = (j - (i + 1)) + 1 := by omega
-      rw [this, List.getElem?_cons_succ]
-    · simp only [h1, ↓reduceIte]
-      by_cases h3 : j = i
-      · subst h3
-        simp [List.lookup]
-      · have h2 : ¬ (i ≤ j ∧ j < i + (as.length + 1)) := by omega
-        simp only [h2, ↓reduceIte, List.lookup]
-        have : (j == i) = false := by simpa using h3
-        simp [this]
+/-- the table `ATOM_CACHE_REF` reads holds the atoms of these references at their positions -/
+def Holds (c : PosTable) (es : List Entry) : Prop := ∀ j (hj : j < es.length), c.lookup j = some es[j].atom
 
-theorem holds_insAtoms (atoms : List Bytes) (c : Cache) : Holds (insAtoms 0 atoms c) atoms := by
-  intro i hi
-  rw [lookup_insAtoms]
-  simp [hi]
-
-/-- the references of a positional sender from position `i` on -/
-def posFrom (segs : List Nat) : Nat → List Bytes → List Ref
-  | _, [] => []
-  | i, a :: as => { seg := segs.getD i 0, idx := i, text := some a } :: posFrom segs (i + 1) as
-
-theorem mapIdx_posFrom (segs : List Nat) : ∀ (atoms : List Bytes) (i : Nat),
-    atoms.mapIdx (fun j a => ({ seg := segs.getD (j + i) 0, idx := j + i, text := some a } : Ref)) = posFrom segs i atoms := by
-  intro atoms
-  induction atoms with
-  | nil => intro i; rfl
-  | cons a as ih =>
-    intro i
-    rw [List.mapIdx_cons]
-    simp only [posFrom, Nat.zero_add]
-    congr 1
-    have := ih (i + 1)
-    rw [← this]
-    congr 1
-    funext j b
-    have : j + 1 + i = j + (i + 1) := by omega
-    rw [this]
-
-theorem positional_eq (segs : List Nat) (atoms : List Bytes) : positional segs atoms = posFrom segs 0 atoms := by
-  have := mapIdx_posFrom segs atoms 0
-  simpa [positional] using this
-
-theorem posFrom_length (segs : List Nat) : ∀ (atoms : List Bytes) (i : Nat), (posFrom segs i atoms).length = atoms.length := by
-  intro atoms
-  induction atoms with
-  | nil => intro i; rfl
-  | cons a as ih => intro i; simp [posFrom, ih]
-
-theorem packNibbles_length : ∀ (l : List Nat), (packNibbles l).length = (l.length + 1) / 2 := by
-  intro l
-  induction l using packNibbles.induct with
-  | case1 => rfl
-  | case2 a => simp [packNibbles]
-  | case3 a b r ih => simp [packNibbles, ih]; omega
-
-theorem flagNibble_pack : ∀ (l : List Nat) (i : Nat), i < l.length → flagNibble (packNibbles l) i = l[i]! % 16 := by
-  intro l
-  induction l using packNibbles.induct with
-  | case1 => intro i hi; simp at hi
-  | case2 a =>
-    intro i hi
-    have : i = 0 := by simpa using hi
-    subst this
-    simp [flagNibble, packNibbles]
-  | case3 a b r ih =>
-    intro i hi
-    have hlt : a % 16 + 16 * (b % 16) < 256 := by omega
-    match i with
-    | 0 =>
-      simp [flagNibble, packNibbles]
-    | 1 =>
-      simp [flagNibble, packNibbles]
-      omega
-    | k + 2 =>
-      have := ih k (by simpa using hi)
-      simp only [flagNibble, packNibbles] at this ⊢
-      have e1 : (k + 2) / 2 = k / 2 + 1 := by omega
-      have e2 : (k + 2) % 2 = k % 2 := by omega
-      rw [e1, e2]
-      simpa using this
-
-theorem posFrom_nibble (segs : List Nat) : ∀ (as : List Bytes) (i : Nat), ∀ r ∈ posFrom segs i as, 8 ≤ r.nibble ∧ r.nibble < 16 := by
-  intro as
-  induction as with
-  | nil => intro i r hr; simp [posFrom] at hr
-  | cons a as ih =>
-    intro i r hr
-    simp only [posFrom, List.mem_cons] at hr
-    rcases hr with rfl | hr
-    · simp [Ref.nibble]; omega
-    · exact ih _ r hr
-
-theorem refsLoop_posFrom (flags : Bytes) (long : Bool) (segs : List Nat) (body : Bytes) :
-    ∀ (as : List Bytes) (i : Nat) (c : Cache),
-      i + as.length ≤ 256 →
-      (∀ j, i ≤ j → j < i + as.length → 8 ≤ flagNibble flags j) →
-      (∀ a ∈ as, validUtf8 a = true) → (∀ a ∈ as, a.length < (if long then 65536 else 256)) →
-      refsLoop flags long as.length i c (((posFrom segs i as).map (Ref.bytes long)).flatten ++ body) =
-        (insAtoms i as c, .ok body) := by
-  intro as
-  induction as with
-  | nil => intro i c _ _ _ _; simp [refsLoop, posFrom, insAtoms]
-  | cons a as ih =>
-    intro i c hn hfl hutf hlen
-    have hi : i < 256 := by simp at hn; omega
-    have hnib : 8 ≤ flagNibble flags i := hfl i (Nat.le_refl _) (by simp)
-    have hu : validUtf8 a = true := hutf a (by simp)
-    have hl := hlen a (by simp)
-    have ih' := ih (i + 1) ((i, a) :: c) (by simp at hn; omega)
-      (fun j h1 h2 => hfl j (by omega) (by simp; omega))
-      (fun b hb => hutf b (by simp [hb])) (fun b hb => hlen b (by simp [hb]))
-    simp only [posFrom, List.map_cons, List.flatten_cons, Ref.bytes, List.length_cons, List.cons_append, List.append_assoc]
-    rw [refsLoop, rdU_byte i _ hi]
-    simp only [hnib, ↓reduceIte]
-    cases long with
-    | false =>
-      simp only [Bool.false_eq_true, ↓reduceIte] at hl ⊢
-      rw [rdU_be8 a.length _ hl]
-      simp only [takeE_append, hu, ↓reduceIte]
-      simpa [insAtoms] using ih'
-    | true =>
-      simp only [↓reduceIte] at hl ⊢
-      rw [rdU_be16 a.length _ hl]
-      simp only [takeE_append, hu, ↓reduceIte]
-      simpa [insAtoms] using ih'
-
-theorem parseDistHeader_positional (c : Cache) (segs : List Nat) (atoms : List Bytes) (long : Bool) (body : Bytes)
-    (hn : atoms.length ≤ 255) (hutf : ∀ a ∈ atoms, validUtf8 a = true)
-    (hlen : ∀ a ∈ atoms, a.length < (if long then 65536 else 256)) :
-    parseDistHeader c (headerBytes (positional segs atoms) long ++ body) = (insAtoms 0 atoms c, .ok body) := by
-  rw [positional_eq]
-  cases hat : atoms with
-  | nil => simp [headerBytes, posFrom, parseDistHeader, rdU_one, insAtoms]
-  | cons a0 as0 =>
-    rw [← hat]
-    have hpos : 0 < atoms.length := by rw [hat]; simp
-    have hne : (posFrom segs 0 atoms).isEmpty = false := by rw [hat]; simp [posFrom]
-    have hlenP := posFrom_length segs atoms 0
-    simp only [headerBytes, hne, Bool.false_eq_true, ↓reduceIte, hlenP, List.cons_append, List.append_assoc]
-    -- the nibble list
-    let nibs := (posFrom segs 0 atoms).map Ref.nibble ++ [if long then 1 else 0]
-    have hnl : nibs.length = atoms.length + 1 := by simp [nibs, hlenP]
-    have hfl : (packNibbles nibs).length = atoms.length / 2 + 1 := by rw [packNibbles_length, hnl]; omega
-    rw [parseDistHeader, rdU_byte atoms.length _ (by omega)]
-    have hn0 : ¬ atoms.length = 0 := by omega
-    simp only [hn0, ↓reduceIte]
-    rw [takeE_of_length _ (packNibbles nibs) _ hfl]
-    simp only
-    have hlast : flagNibble (packNibbles nibs) atoms.length = (if long then 1 else 0) := by
-      rw [flagNibble_pack nibs atoms.length (by omega)]
-      have : nibs[atoms.length]! = (if long then 1 else 0) := by
-        simp [nibs, hlenP]
-      rw [this]; cases long <;> simp
-    have hlong : (decide (if atoms.length % 2 = 0 then ((packNibbles nibs).getD (atoms.length / 2) 0).toNat % 2 = 1
-        else ((packNibbles nibs).getD (atoms.length / 2) 0).toNat / 16 % 2 = 1)) = long := by
-      simp only [flagNibble] at hlast
-      by_cases hp : atoms.length % 2 = 0
-      · simp only [hp, ↓reduceIte] at hlast ⊢
-        cases long <;> simp at hlast ⊢ <;> omega
-      · simp only [hp, ↓reduceIte] at hlast ⊢
-        cases long <;> simp at hlast ⊢ <;> omega
-    rw [hlong]
-    have hge : ∀ j, 0 ≤ j → j < 0 + atoms.length → 8 ≤ flagNibble (packNibbles nibs) j := by
-      intro j _ hj
-      rw [flagNibble_pack nibs j (by omega)]
-      have hj' : j < ((posFrom segs 0 atoms).map Ref.nibble).length := by simp [hlenP]; omega
-      have e : nibs[j]! = ((posFrom segs 0 atoms).map Ref.nibble)[j] := by
-        simp only [nibs]
-        rw [getElem!_pos _ j (by simp [hlenP]; omega), List.getElem_append_left hj']
-      have hm := posFrom_nibble segs atoms 0 ((posFrom segs 0 atoms)[j]'(by simpa using hj')) (List.getElem_mem _)
-      rw [e, List.getElem_map]
-      omega
-    exact refsLoop_posFrom (packNibbles nibs) long segs body atoms 0 c (by omega) hge hutf hlen
-
-/-- a message sent under the distribution header of a positional sender -/
-structure HSent where
+/-- a message as a conforming sender with an atom cache means it: the control message and payload, the LongAtoms flag it
+chose, and its references — new entries (with text), references to entries the receiver already holds, overwrites, in any
+segment and at any internal index -/
+structure CSent where
   m : Sent
-  atoms : List Bytes
-  segs : List Nat
   long : Bool
+  es : List Entry
 
-def HSent.header (h : HSent) : Bytes := headerBytes (positional h.segs h.atoms) h.long
+/-- `N, flags, refs…` -/
+def CSent.header (h : CSent) : Bytes := sendHeader h.long h.es
 
-/-- `131, 68, header, control [, payload]` -/
-def HSent.frame (h : HSent) : Bytes := withHeader h.header h.m.wire
+/-- the whole message in one `131, 68` frame -/
+def CSent.frame (h : CSent) : Bytes := withHeader h.header h.m.wire
 
-/-- at most 255 references, UTF-8 texts that fit their length field, and the terms' bytes read as the terms under every
-cache that holds the header's atoms at their positions -/
-structure HSent.Conforms (x : Ext) (tbl : Control.Table) (h : HSent) : Prop where
-  count : h.atoms.length ≤ 255
-  utf8 : ∀ a ∈ h.atoms, validUtf8 a = true
-  lens : ∀ a ∈ h.atoms, a.length < (if h.long then 65536 else 256)
-  terms : ∀ c, Holds c h.atoms → h.m.Conforms x tbl c
+/-- the whole message as the only fragment of sequence `seq`: `131, 69, seq, 1, N, flags, refs…, terms` -/
+def CSent.single (h : CSent) (seq : Nat) : Bytes := fragFirst seq 1 h.header h.m.wire.terms
 
-theorem reads_nonempty {x : Ext} {c : Cache} {bs : Bytes} {t : Term} (h : Reads x c bs t) : bs ≠ [] := by
+/-- the message as C14 sees it -/
+def CSent.c14 (h : CSent) : Props.C14.Msg := (h.long, h.es, h.m.wire.terms)
+
+/-- the terms' bytes read as the terms under every table that holds the header's atoms at their positions, and the
+control tuple is the control message -/
+def CSent.TermsConform (x : Ext) (tbl : Control.Table) (h : CSent) : Prop := ∀ c, Holds c h.es → h.m.Conforms x tbl c
+
+/-- how a message is put on the wire without being cut -/
+inductive Framing where
+  | whole
+  | single (seq : Nat)
+
+def CSent.framed (h : CSent) : Framing → Bytes
+  | .whole => h.frame
+  | .single seq => h.single seq
+
+/-- the sequence ids the single-fragment messages use are 64-bit and the assembler holds nothing for them -/
+def SeqsFree (a : Frag.Assembler) (hs : List (CSent × Framing)) : Prop :=
+  ∀ p ∈ hs, ∀ seq, p.2 = .single seq → seq < 2 ^ 64 ∧ Frag.lookup seq a.pending = none
+
+theorem reads_nonempty {x : Ext} {c : PosTable} {bs : Bytes} {t : Term} (h : Reads x c bs t) : bs ≠ [] := by
   intro e
   subst e
   have := h [] 1 (by simp)
   simp [dec] at this
 
-theorem decodeWithAtomCache_header (x : Ext) (tbl : Control.Table) (c : Cache) (h : HSent) (hc : h.Conforms x tbl) :
-    decodeWithAtomCache x c h.frame = (insAtoms 0 h.atoms c, .ok (h.m.ct, h.m.pay.map (·.2))) := by
-  obtain ⟨hn, hu, hl, ht⟩ := hc
-  obtain ⟨hctl, hpay, _⟩ := ht _ (holds_insAtoms h.atoms c)
-  have hp := parseDistHeader_positional c h.segs h.atoms h.long h.m.wire.terms hn hu hl
-  simp only [HSent.frame, withHeader, HSent.header, decodeWithAtomCache]
-  simp only [bne_self_eq_false, Bool.false_eq_true, ↓reduceIte, firstTerm, hp]
+theorem sendHeader_cons (long : Bool) (es : List Entry) : ∃ nb rest, sendHeader long es = nb :: rest := by
+  unfold sendHeader
+  split
+  · exact ⟨0, [], rfl⟩
+  · exact ⟨_, _, rfl⟩
+
+/-- `decode_with_atom_cache` on a message whose header the parser resolves position by position to the sender's atoms -/
+theorem decodeWithAtomCache_resolved (x : Ext) (tbl : Control.Table) (c : Cache) (h : CSent)
+    (h1 : (parseHeader c (h.header ++ h.m.wire.terms)).2 = .ok h.m.wire.terms)
+    (h2 : Holds (parseHeader c (h.header ++ h.m.wire.terms)).1.atoms h.es)
+    (ht : h.TermsConform x tbl) :
+    DistHeader.decodeWithAtomCache x c h.frame =
+      ((parseHeader c (h.header ++ h.m.wire.terms)).1, .ok (h.m.ct, h.m.pay.map (·.2))) := by
+  obtain ⟨hctl, hpay, _⟩ := ht _ h2
+  obtain ⟨c1, hc1⟩ : ∃ c1, (parseHeader c (h.header ++ h.m.wire.terms)).1 = c1 := ⟨_, rfl⟩
+  have hp : parseHeader c (h.header ++ h.m.wire.terms) = (c1, .ok h.m.wire.terms) := by
+    rw [← hc1, ← h1]
+  rw [hc1] at hctl hpay ⊢
+  have h131 : ((131 : UInt8) != 131) = false := by decide
+  have h68 : ((68 : UInt8) == 68) = true := by decide
+  simp only [CSent.frame, withHeader, DistHeader.decodeWithAtomCache, h131, Bool.false_eq_true, ↓reduceIte, h68, hp]
+  have hbig : h.m.wire.terms.length < (131 :: 68 :: (h.header ++ h.m.wire.terms)).length + 1 + x.extra := by
+    simp only [List.length_cons, List.length_append]; omega
+  generalize (131 :: 68 :: (h.header ++ h.m.wire.terms)).length + 1 + x.extra = fuel at hbig ⊢
   cases hpy : h.m.pay with
   | none =>
     have e : h.m.wire.terms = h.m.cb := by simp [Wire.terms, Sent.wire, hpy]
-    have := hctl [] (fuelFor x (131 :: 68 :: (headerBytes (positional h.segs h.atoms) h.long ++ h.m.wire.terms)))
-      (by simp [fuelFor, e]; omega)
+    rw [e] at hbig ⊢
+    have := hctl [] fuel (by simpa using hbig)
     simp only [List.append_nil] at this
-    simp only [e] at this ⊢
-    simp [this, secondTerm]
+    simp [this]
   | some pp =>
     obtain ⟨pb, p⟩ := pp
     have hrp := hpay pb p hpy
     have hne := reads_nonempty hrp
     have e : h.m.wire.terms = h.m.cb ++ pb := by simp [Wire.terms, Sent.wire, hpy]
-    have h1 := hctl pb (fuelFor x (131 :: 68 :: (headerBytes (positional h.segs h.atoms) h.long ++ h.m.wire.terms)))
-      (by simp [fuelFor, e]; omega)
-    have h2 := hrp [] (fuelFor x (131 :: 68 :: (headerBytes (positional h.segs h.atoms) h.long ++ h.m.wire.terms)))
-      (by simp [fuelFor, e]; omega)
-    simp only [List.append_nil] at h2
-    simp only [e] at h1 h2 ⊢
+    rw [e] at hbig ⊢
+    simp only [List.length_append] at hbig
+    have h1' := hctl pb fuel (by omega)
+    have h2' := hrp [] fuel (by simp; omega)
+    simp only [List.append_nil] at h2'
     cases pb with
     | nil => exact absurd rfl hne
-    | cons b rest => simp [h1, secondTerm, h2]
+    | cons b rest => simp [h1', h2']
 
-theorem recv_header (x : Ext) (tbl : Control.Table) (s : St) (h : HSent) (hc : h.Conforms x tbl) :
-    recv x tbl s h.frame = ({ cache := insAtoms 0 h.atoms s.cache, asm := s.asm }, some h.m.expected) := by
-  have hd := decodeWithAtomCache_header x tbl s.cache h hc
-  have hparse := (hc.terms _ (holds_insAtoms h.atoms s.cache)).parse
+theorem dispatch_cached (x : Ext) (tbl : Control.Table) (now : Nat) (s : St) (h : CSent)
+    (h1 : (parseHeader s.cache (h.header ++ h.m.wire.terms)).2 = .ok h.m.wire.terms)
+    (h2 : Holds (parseHeader s.cache (h.header ++ h.m.wire.terms)).1.atoms h.es)
+    (ht : h.TermsConform x tbl) :
+    dispatch x tbl now s h.frame =
+      ({ cache := (parseHeader s.cache (h.header ++ h.m.wire.terms)).1, asm := s.asm }, some h.m.expected) := by
+  have hd := decodeWithAtomCache_resolved x tbl s.cache h h1 h2 ht
+  have hparse := (ht _ h2).parse
   have e : h.frame = 131 :: 68 :: (h.header ++ h.m.wire.terms) := rfl
-  rw [e, recv_header_frame, ← e, recvHeader, hd]
+  rw [e, dispatch_header_frame, ← e, recvHeader, hd]
   simp [finishE, finish, hparse, Sent.expected]
 
-theorem outs_header (x : Ext) (tbl : Control.Table) (hs : List HSent) (hc : ∀ h ∈ hs, h.Conforms x tbl) : ∀ s : St,
-    outs x tbl s (hs.map HSent.frame) = hs.map fun h => some h.m.expected := by
-  induction hs with
-  | nil => intro s; rfl
-  | cons h hs ih =>
-    intro s
-    simp only [List.map_cons, outs, recv_header x tbl s h (hc h (by simp))]
-    rw [ih (fun h' hh' => hc h' (by simp [hh']))]
+/-- a message of the sender, whole or as a single fragment, at any clock reading: delivered; the cache is what the header
+parser leaves, the assembler is touched by `cleanup_expired` only -/
+theorem recv_cached (x : Ext) (tbl : Control.Table) (now : Nat) (s : St) (h : CSent) (fr : Framing)
+    (h1 : (parseHeader s.cache (h.header ++ h.m.wire.terms)).2 = .ok h.m.wire.terms)
+    (h2 : Holds (parseHeader s.cache (h.header ++ h.m.wire.terms)).1.atoms h.es)
+    (ht : h.TermsConform x tbl)
+    (hfree : ∀ seq, fr = .single seq → seq < 2 ^ 64 ∧ Frag.lookup seq s.asm.pending = none) :
+    recv x tbl now s (h.framed fr) =
+      ({ cache := (parseHeader s.cache (h.header ++ h.m.wire.terms)).1, asm := (expire now s).asm }, some h.m.expected) := by
+  have hw := dispatch_cached x tbl now (expire now s) h h1 h2 ht
+  cases fr with
+  | whole => exact hw
+  | single seq =>
+    obtain ⟨hs, h0⟩ := hfree seq rfl
+    obtain ⟨nb, rest, hh⟩ := sendHeader_cons h.long h.es
+    have e1 : h.single seq = 131 :: 69 :: (be64 seq ++ be64 1 ++ nb :: (rest ++ h.m.wire.terms)) := by
+      simp [CSent.single, fragFirst, CSent.header, hh]
+    have e2 : h.frame = 131 :: 68 :: nb :: (rest ++ h.m.wire.terms) := by
+      simp [CSent.frame, withHeader, CSent.header, hh]
+    simp only [CSent.framed]
+    rw [e1, recv_single_fragment x tbl now s seq nb _ hs h0, ← e2]
+    exact hw
 
-theorem selfContained_header (x : Ext) (tbl : Control.Table) (h : HSent) (hc : h.Conforms x tbl) : SelfContained x tbl h.frame := by
-  intro s s'
-  rw [recv_header x tbl s h hc, recv_header x tbl s' h hc]
+/-- HISTORIES: a conforming sender's messages, each whole or as a single fragment, ticks anywhere, any clock readings:
+every message is delivered, once, in order, and the connection's cache ends up agreeing with the sender's -/
+theorem outs_cached (x : Ext) (tbl : Control.Table) (tfs : List TFrame) :
+    ∀ (hs : List (CSent × Framing)) (s : St) (sndr : Slots),
+    SlotsAgree s.cache sndr → ConformingSeq sndr (hs.map (·.1.c14)) → (∀ p ∈ hs, p.1.TermsConform x tbl) →
+    SeqsFree s.asm hs → WithTicks (bodies tfs) (hs.map fun p => p.1.framed p.2) →
+    (outs x tbl s tfs).filterMap id = hs.map (fun p => p.1.m.expected) ∧
+      SlotsAgree (after x tbl s tfs).cache (slotsAfter sndr (hs.map (·.1.c14))) := by
+  induction tfs with
+  | nil =>
+    intro hs s sndr ha _ _ _ hw
+    have : hs = [] := by simpa [WithTicks, bodies] using hw.symm
+    subst this
+    exact ⟨rfl, ha⟩
+  | cons tf rest ih =>
+    intro hs s sndr ha hc ht hfree hw
+    obtain ⟨t, f⟩ := tf
+    have hfree' : ∀ hs', (∀ p ∈ hs', p ∈ hs) → SeqsFree (expire t s).asm hs' := by
+      intro hs' hsub p hp seq hseq
+      obtain ⟨h1, h2⟩ := hfree p (hsub p hp) seq hseq
+      exact ⟨h1, lookup_expire_none t s seq h2⟩
+    rcases withTicks_cons hw with ⟨rfl, hw'⟩ | ⟨_, fr, hfr, hw'⟩
+    · simp only [outs, after, recv_tick]
+      rw [List.filterMap_cons]
+      exact ih hs (expire t s) sndr ha hc ht (hfree' hs (fun _ h => h)) hw'
+    · cases hs with
+      | nil => simp at hfr
+      | cons p hs' =>
+        simp only [List.map_cons, List.cons.injEq] at hfr
+        obtain ⟨rfl, rfl⟩ := hfr
+        have hres := C14_history _ s.cache sndr ha hc
+        obtain ⟨hn, hconf, hv, hrest⟩ := hc
+        obtain ⟨h1, h2, _⟩ := hres
+        have hnext := C14_cache_tracks_sender p.1.long s.cache sndr p.1.es p.1.m.wire.terms hn hconf hv ha
+        have hr := recv_cached x tbl t s p.1 p.2 h1 h2 (ht p (by simp)) (fun seq hseq => hfree p (by simp) seq hseq)
+        simp only [outs, after, hr]
+        rw [List.filterMap_cons]
+        simp only [id_eq, List.map_cons]
+        obtain ⟨ih1, ih2⟩ := ih hs' { cache := (parseHeader s.cache (p.1.header ++ p.1.m.wire.terms)).1, asm := (expire t s).asm }
+          (sendSlots sndr p.1.es) hnext hrest (fun p' hp' => ht p' (by simp [hp'])) (hfree' hs' (fun _ h => by simp [h])) hw'
+        exact ⟨by rw [ih1], ih2⟩
+
+/-- the same history started in a state whose cache differs from the sender's in some slots `T` (written behind the
+sender's back, e.g. by a malformed frame): every message is still delivered as meant, provided the history never reads a
+slot of `T` before writing it anew -/
+theorem outs_cached_after_write (x : Ext) (tbl : Control.Table) (tfs : List TFrame) (hs : List (CSent × Framing))
+    (c0 : Cache) (s : St) (sndr : Slots) (ha : SlotsAgree c0 sndr) (hsuf : c0.slots <:+ s.cache.slots)
+    (hc : ConformingSeq sndr (hs.map (·.1.c14))) (hav : Avoids (wroteSlots c0 s.cache) (hs.map (·.1.c14)))
+    (ht : ∀ p ∈ hs, p.1.TermsConform x tbl) (hfree : SeqsFree s.asm hs)
+    (hw : WithTicks (bodies tfs) (hs.map fun p => p.1.framed p.2)) :
+    (outs x tbl s tfs).filterMap id = hs.map (fun p => p.1.m.expected) := by
+  have hag : ∀ k, k ∉ wroteSlots c0 s.cache → s.cache.slots.lookup k = sndr.lookup k := by
+    intro k hk
+    rw [lookup_of_not_wrote hsuf k hk]
+    exact ha k
+  have hc' := conformingSeq_transfer _ sndr s.cache.slots _ hag hc hav
+  exact (outs_cached x tbl tfs hs s s.cache.slots (fun _ => rfl) hc' ht hfree hw).1
+
+/-- a header all of whose references are new entries is conforming whatever the sender's cache holds -/
+def AllNew (long : Bool) (es : List Entry) : Prop :=
+  ∀ e ∈ es, e.new = true ∧ e.seg < 8 ∧ e.idx < 256 ∧ (if long then e.atom.length < 65536 else e.atom.length < 256)
+
+theorem conforming_allNew (long : Bool) (es : List Entry) (h : AllNew long es) : ∀ s : Slots, Conforming long s es := by
+  induction es with
+  | nil => intro _; trivial
+  | cons e r ih =>
+    intro s
+    obtain ⟨hn, hseg, hidx, hlen⟩ := h e (by simp)
+    exact ⟨hseg, hidx, hlen, by simp [hn], ih (fun e' he' => h e' (by simp [he'])) _⟩
+
+/-- a message that brings all its atoms along (every reference a new entry) is delivered in every state at every time -/
+theorem recv_allNew (x : Ext) (tbl : Control.Table) (now : Nat) (s : St) (h : CSent) (hn : h.es.length ≤ 255)
+    (hall : AllNew h.long h.es) (hv : ∀ e ∈ h.es, validUtf8 e.atom = true) (ht : h.TermsConform x tbl) :
+    (recv x tbl now s h.frame).2 = some h.m.expected := by
+  have hc : ConformingSeq s.cache.slots [h.c14] := ⟨hn, conforming_allNew h.long h.es hall _, hv, trivial⟩
+  obtain ⟨h1, h2, _⟩ := C14_history [h.c14] s.cache s.cache.slots (fun _ => rfl) hc
+  have := recv_cached x tbl now s h .whole h1 h2 ht (by intro seq hq; cases hq)
+  simpa [CSent.framed] using congrArg Prod.snd this
+
+theorem conformingSeq_append (m1 m2 : List Props.C14.Msg) : ∀ s : Slots,
+    ConformingSeq s (m1 ++ m2) ↔ ConformingSeq s m1 ∧ ConformingSeq (slotsAfter s m1) m2 := by
+  induction m1 with
+  | nil => intro s; simp [ConformingSeq, slotsAfter]
+  | cons m r ih =>
+    intro s
+    obtain ⟨long, es, body⟩ := m
+    simp only [List.cons_append, ConformingSeq, slotsAfter, ih]
+    constructor
+    · rintro ⟨a, b, c, d, e⟩; exact ⟨⟨a, b, c, d⟩, e⟩
+    · rintro ⟨⟨a, b, c, d⟩, e⟩; exact ⟨a, b, c, d, e⟩
+
+theorem wroteSlots_self (c : Cache) : wroteSlots c c = [] := by simp [wroteSlots]
+
+end cached
 
 /-! ### what a frame can do to the state -/
 
@@ -761,95 +791,74 @@ def fragSeq (data : Bytes) : Option Nat :=
     else none
   | _ => none
 
-theorem refsLoop_cache (flags : Bytes) (long : Bool) : ∀ (k i : Nat) (c : Cache) (bs : Bytes),
-    c <:+ (refsLoop flags long k i c bs).1 := by
-  intro k
-  induction k with
-  | zero => intro i c bs; simp [refsLoop]
-  | succ k ih =>
-    intro i c bs
-    unfold refsLoop
-    split
-    · exact List.suffix_refl _
-    · split
-      · split
-        · exact List.suffix_refl _
-        · split
-          · exact List.suffix_refl _
-          · split
-            · exact (List.suffix_cons _ _).trans (ih _ _ _)
-            · exact List.suffix_refl _
-      · exact ih _ _ _
+/-- one cache comes from the other by insertions in front (of both of its tables) -/
+def CacheGrew (c c' : Cache) : Prop := c.atoms <:+ c'.atoms ∧ c.slots <:+ c'.slots
 
-theorem parseDistHeader_cache (c : Cache) (bs : Bytes) : c <:+ (parseDistHeader c bs).1 := by
-  unfold parseDistHeader
-  split
-  · exact List.suffix_refl _
-  · split
-    · exact List.suffix_refl _
-    · split
-      · exact List.suffix_refl _
-      · exact refsLoop_cache _ _ _ _ _ _
-
-theorem decodeWithAtomCache_cache (x : Ext) (c : Cache) (data : Bytes) : c <:+ (decodeWithAtomCache x c data).1 := by
-  unfold decodeWithAtomCache
-  split
-  · exact List.suffix_refl _
-  · split
-    · exact List.suffix_refl _
-    · split
-      · exact List.suffix_refl _
-      · rename_i tag r1
-        simp only [firstTerm]
-        split
-        · have h := parseDistHeader_cache c r1
-          split
-          · rename_i c1 e he; rw [he] at h; exact h
-          · rename_i c1 body he; rw [he] at h; exact h
-        · exact List.suffix_refl _
+theorem cacheGrew_refl (c : Cache) : CacheGrew c c := ⟨List.suffix_refl _, List.suffix_refl _⟩
 
 theorem decodeCompleteFragment_cache (x : Ext) (tbl : Control.Table) (c : Cache) (data : Bytes) :
-    c <:+ (decodeCompleteFragment x tbl c data).1 := by
+    CacheGrew c (decodeCompleteFragment x tbl c data).1 := by
   unfold decodeCompleteFragment
   split
   · split
-    · exact decodeWithAtomCache_cache x c _
-    · exact List.suffix_refl _
-  · exact List.suffix_refl _
+    · exact DistHeader.decodeWithAtomCache_suffix x c _
+    · exact cacheGrew_refl _
+  · exact cacheGrew_refl _
 
 theorem deliver_cache (x : Ext) (tbl : Control.Table) (s : St) (r : Frag.Assembler × Option Bytes) :
-    s.cache <:+ (deliver x tbl s r).1.cache := by
+    CacheGrew s.cache (deliver x tbl s r).1.cache := by
   unfold deliver
   split
   · exact decodeCompleteFragment_cache x tbl s.cache _
-  · exact List.suffix_refl _
+  · exact cacheGrew_refl _
 
-/-- the atom cache only ever gains entries, whatever the frame -/
-theorem recv_cache (x : Ext) (tbl : Control.Table) (s : St) (data : Bytes) :
-    s.cache <:+ (recv x tbl s data).1.cache := by
-  unfold recv
+theorem dispatch_cache (x : Ext) (tbl : Control.Table) (now : Nat) (s : St) (data : Bytes) :
+    CacheGrew s.cache (dispatch x tbl now s data).1.cache := by
+  unfold dispatch
   split
-  · exact List.suffix_refl _
-  · split <;> exact List.suffix_refl _
+  · exact cacheGrew_refl _
+  · split <;> exact cacheGrew_refl _
   · split
     · unfold recvFragHeader
       split
-      · exact List.suffix_refl _
+      · exact cacheGrew_refl _
       · split
-        · exact List.suffix_refl _
+        · exact cacheGrew_refl _
         · exact deliver_cache _ _ _ _
     · split
       · unfold recvFragCont
         split
-        · exact List.suffix_refl _
+        · exact cacheGrew_refl _
         · split
-          · exact List.suffix_refl _
+          · exact cacheGrew_refl _
           · exact deliver_cache _ _ _ _
       · split
-        · exact List.suffix_refl _
+        · exact cacheGrew_refl _
         · split
-          · exact decodeWithAtomCache_cache x s.cache _
-          · exact List.suffix_refl _
+          · exact DistHeader.decodeWithAtomCache_suffix x s.cache _
+          · exact cacheGrew_refl _
+
+/-- the atom cache only ever gains entries, whatever the frame -/
+theorem recv_cache (x : Ext) (tbl : Control.Table) (now : Nat) (s : St) (data : Bytes) :
+    CacheGrew s.cache (recv x tbl now s data).1.cache :=
+  dispatch_cache x tbl now (expire now s) data
+
+/-- frames that are not `131, 68 | 69 | 70` leave the cache exactly as it was -/
+theorem recv_cache_same (x : Ext) (tbl : Control.Table) (now : Nat) (s : St) (data : Bytes)
+    (h : ∀ b r, data = 131 :: b :: r → b ≠ 68 ∧ b ≠ 69 ∧ b ≠ 70) : (recv x tbl now s data).1.cache = s.cache := by
+  unfold recv dispatch
+  split
+  · rfl
+  · split <;> rfl
+  · rename_i a b rest
+    by_cases ha : a = 131
+    · subst ha
+      obtain ⟨h1, h2, h3⟩ := h b rest rfl
+      simp only [h1, h2, h3, and_false, ↓reduceIte]
+      split <;> rfl
+    · simp only [ha, false_and, ↓reduceIte]
+      split <;> rfl
+
 
 theorem deliver_asm (x : Ext) (tbl : Control.Table) (s : St) (r : Frag.Assembler × Option Bytes) :
     (deliver x tbl s r).1.asm = r.1 := by
@@ -888,10 +897,10 @@ theorem decodeFragmentCont_seq {a b : UInt8} {r : Bytes} {seq fid : Nat} {rem : 
         · simp at h
           exact ⟨r1, by rw [hq, h.1.1]⟩
 
-/-- a frame touches no entry of the fragment assembler but that of the sequence id it names -/
-theorem recv_asm_other (x : Ext) (tbl : Control.Table) (s : St) (data : Bytes) (q : Nat) (hq : fragSeq data ≠ some q) :
-    Frag.lookup q (recv x tbl s data).1.asm.pending = Frag.lookup q s.asm.pending := by
-  unfold recv
+/-- after `cleanup_expired`, a frame touches no entry of the fragment assembler but that of the sequence id it names -/
+theorem dispatch_asm_other (x : Ext) (tbl : Control.Table) (now : Nat) (s : St) (data : Bytes) (q : Nat) (hq : fragSeq data ≠ some q) :
+    Frag.lookup q (dispatch x tbl now s data).1.asm.pending = Frag.lookup q s.asm.pending := by
+  unfold dispatch
   split
   · rfl
   · split <;> rfl
@@ -908,7 +917,7 @@ theorem recv_asm_other (x : Ext) (tbl : Control.Table) (s : St) (data : Bytes) (
           have hne : seq ≠ q := by
             intro e; apply hq; simp [fragSeq, hab.1, hab.2, hr, e]
           rw [deliver_asm]
-          exact Frag.step_other s.asm (.start 0 seq fid none _) q seq rfl hne
+          exact Frag.step_other s.asm (.start now seq fid none _) q seq rfl hne
     · split
       · rename_i hab
         unfold recvFragCont
@@ -921,21 +930,112 @@ theorem recv_asm_other (x : Ext) (tbl : Control.Table) (s : St) (data : Bytes) (
             have hne : seq ≠ q := by
               intro e; apply hq; simp [fragSeq, hab.1, hab.2, hr, e]
             rw [deliver_asm]
-            exact Frag.step_other s.asm (.add 0 seq fid _) q seq rfl hne
+            exact Frag.step_other s.asm (.add now seq fid _) q seq rfl hne
       · split
         · rfl
         · split <;> rfl
 
+theorem recv_asm_other (x : Ext) (tbl : Control.Table) (now : Nat) (s : St) (data : Bytes) (q : Nat) (hq : fragSeq data ≠ some q) :
+    Frag.lookup q (recv x tbl now s data).1.asm.pending = Frag.lookup q (expire now s).asm.pending :=
+  dispatch_asm_other x tbl now _ data q hq
+
+/-! ### the connection's assembler, frame by frame (link to C09) -/
+
+/-- the event a frame is for the fragment assembler (`none`: not a fragment frame, or refused before the assembler is asked) -/
+def fragOp (now : Nat) (data : Bytes) : Option Frag.Op :=
+  match data with
+  | a :: b :: _ =>
+    if a = 131 ∧ b = 69 then
+      match decodeFragmentHeader data with
+      | .ok ((seq, fid, n), remaining) =>
+        if fid = 0 then none else some (.start now seq fid none (131 :: 68 :: UInt8.ofNat n :: remaining))
+      | .error _ => none
+    else if a = 131 ∧ b = 70 then
+      match decodeFragmentCont data with
+      | .ok ((seq, fid), remaining) => if fid = 0 then none else some (.add now seq fid remaining)
+      | .error _ => none
+    else none
+  | _ => none
+
+/-- the connection's assembler sees one received frame exactly as `Frag.Assembler.onFrame` (C09) describes it -/
+theorem recv_asm_onFrame (x : Ext) (tbl : Control.Table) (now : Nat) (s : St) (data : Bytes) :
+    (recv x tbl now s data).1.asm = (s.asm.onFrame now (fragOp now data)).1 := by
+  unfold recv dispatch
+  split
+  · rfl
+  · split <;> rfl
+  · rename_i a b rest
+    split
+    · rename_i hab
+      obtain ⟨rfl, rfl⟩ := hab
+      have hab : (131 : UInt8) = 131 ∧ (69 : UInt8) = 69 := ⟨rfl, rfl⟩
+      unfold recvFragHeader
+      split
+      · rename_i e he; simp [fragOp, hab, he, Frag.Assembler.onFrame, expire]
+      · rename_i seq fid n rem hd
+        split
+        · rename_i h0; simp [fragOp, hab, hd, h0, Frag.Assembler.onFrame, expire]
+        · rename_i h0
+          rw [deliver_asm]
+          simp [fragOp, hab, hd, h0, Frag.Assembler.onFrame, expire, Frag.Assembler.step]
+    · rename_i hab
+      split
+      · rename_i hab2
+        obtain ⟨rfl, rfl⟩ := hab2
+        have hab2 : (131 : UInt8) = 131 ∧ (70 : UInt8) = 70 := ⟨rfl, rfl⟩
+        unfold recvFragCont
+        split
+        · rename_i e he; simp [fragOp, hab, hab2, he, Frag.Assembler.onFrame, expire]
+        · rename_i seq fid rem hd
+          split
+          · rename_i h0; simp [fragOp, hab, hab2, hd, h0, Frag.Assembler.onFrame, expire]
+          · rename_i h0
+            rw [deliver_asm]
+            simp [fragOp, hab, hab2, hd, h0, Frag.Assembler.onFrame, expire, Frag.Assembler.step]
+      · rename_i hab2
+        split
+        · simp [fragOp, hab, hab2, Frag.Assembler.onFrame, expire]
+        · split
+          · simp [fragOp, hab, hab2, Frag.Assembler.onFrame, expire, recvHeader]
+          · simp [fragOp, hab, hab2, Frag.Assembler.onFrame, expire]
+
+theorem after_asm_afterFrames (x : Ext) (tbl : Control.Table) (tfs : List TFrame) : ∀ s : St,
+    (after x tbl s tfs).asm = s.asm.afterFrames (tfs.map fun f => (f.1, fragOp f.1 f.2)) := by
+  induction tfs with
+  | nil => intro s; rfl
+  | cons f fs ih =>
+    intro s
+    simp only [after, List.map_cons, Frag.Assembler.afterFrames]
+    rw [ih, recv_asm_onFrame]
+
+theorem fragOp_now (now : Nat) (data : Bytes) (op : Frag.Op) (h : fragOp now data = some op) : op.now = now := by
+  unfold fragOp at h
+  split at h
+  · split at h
+    · split at h
+      · split at h
+        · simp at h
+        · simp only [Option.some.injEq] at h; subst h; rfl
+      · simp at h
+    · split at h
+      · split at h
+        · split at h
+          · simp at h
+          · simp only [Option.some.injEq] at h; subst h; rfl
+        · simp at h
+      · simp at h
+  · simp at h
+
 /-! ### bytes that read as terms (instances of `ReadsAt`; the general statement for encoder output is C01/C03) -/
 
-theorem readsAt_nil (x : Ext) (c : Cache) (d : Nat) (hd : d ≤ MAX_NESTING_DEPTH) : ReadsAt x c d [106] .nil := by
+theorem readsAt_nil (x : Ext) (c : PosTable) (d : Nat) (hd : d ≤ MAX_NESTING_DEPTH) : ReadsAt x c d [106] .nil := by
   intro r fuel hf
   obtain ⟨f, rfl⟩ : ∃ f, fuel = f + 1 := ⟨fuel - 1, by omega⟩
   have hd' : ¬ d > MAX_NESTING_DEPTH := by omega
   rw [List.singleton_append, dec.eq_3]
   simp [hd', ownedOnlyTags]
 
-theorem readsAt_small_int (x : Ext) (c : Cache) (d : Nat) (hd : d ≤ MAX_NESTING_DEPTH) (v : UInt8) :
+theorem readsAt_small_int (x : Ext) (c : PosTable) (d : Nat) (hd : d ≤ MAX_NESTING_DEPTH) (v : UInt8) :
     ReadsAt x c d [97, v] (.int v.toNat) := by
   intro r fuel hf
   obtain ⟨f, rfl⟩ : ∃ f, fuel = f + 1 := ⟨fuel - 1, by omega⟩
@@ -944,7 +1044,7 @@ theorem readsAt_small_int (x : Ext) (c : Cache) (d : Nat) (hd : d ≤ MAX_NESTIN
   simp [hd', ownedOnlyTags, rdU_one]
 
 /-- an atom cache reference reads as the atom the cache holds -/
-theorem readsAt_cache_ref (x : Ext) (c : Cache) (d : Nat) (hd : d ≤ MAX_NESTING_DEPTH) (i : UInt8) (a : Bytes)
+theorem readsAt_cache_ref (x : Ext) (c : PosTable) (d : Nat) (hd : d ≤ MAX_NESTING_DEPTH) (i : UInt8) (a : Bytes)
     (h : c.lookup i.toNat = some a) : ReadsAt x c d [82, i] (.atom a) := by
   intro r fuel hf
   obtain ⟨f, rfl⟩ : ∃ f, fuel = f + 1 := ⟨fuel - 1, by omega⟩
@@ -952,19 +1052,19 @@ theorem readsAt_cache_ref (x : Ext) (c : Cache) (d : Nat) (hd : d ≤ MAX_NESTIN
   rw [List.cons_append, dec.eq_3]
   simp [hd', ownedOnlyTags, rdU_one, h]
 
-theorem readsAt_nonempty {x : Ext} {c : Cache} {d : Nat} {bs : Bytes} {t : Term} (h : ReadsAt x c d bs t) : bs ≠ [] := by
+theorem readsAt_nonempty {x : Ext} {c : PosTable} {d : Nat} {bs : Bytes} {t : Term} (h : ReadsAt x c d bs t) : bs ≠ [] := by
   intro e
   subst e
   have := h [] 1 (by simp)
   simp [dec] at this
 
 /-- element bytes that read as the elements, one after the other -/
-inductive ReadsAll (x : Ext) (c : Cache) (d : Nat) : List Bytes → List Term → Prop where
+inductive ReadsAll (x : Ext) (c : PosTable) (d : Nat) : List Bytes → List Term → Prop where
   | nil : ReadsAll x c d [] []
   | cons {bs : Bytes} {t : Term} {bss : List Bytes} {ts : List Term} :
       ReadsAt x c d bs t → ReadsAll x c d bss ts → ReadsAll x c d (bs :: bss) (t :: ts)
 
-theorem readsAll_length {x : Ext} {c : Cache} {d : Nat} {bss : List Bytes} {ts : List Term} (h : ReadsAll x c d bss ts) :
+theorem readsAll_length {x : Ext} {c : PosTable} {d : Nat} {bss : List Bytes} {ts : List Term} (h : ReadsAll x c d bss ts) :
     bss.length = ts.length ∧ bss.length ≤ bss.flatten.length := by
   induction h with
   | nil => simp
@@ -973,7 +1073,7 @@ theorem readsAll_length {x : Ext} {c : Cache} {d : Nat} {bss : List Bytes} {ts :
     have : 0 < (‹Bytes›).length := List.length_pos_iff.mpr this
     simp only [List.length_cons, List.flatten_cons, List.length_append]; omega
 
-theorem decN_readsAll {x : Ext} {c : Cache} {d : Nat} {bss : List Bytes} {ts : List Term} (h : ReadsAll x c d bss ts) :
+theorem decN_readsAll {x : Ext} {c : PosTable} {d : Nat} {bss : List Bytes} {ts : List Term} (h : ReadsAll x c d bss ts) :
     ∀ (r : Bytes) (fuel : Nat), bss.flatten.length + r.length + 1 < fuel →
       decN x { cache := c } fuel d bss.length (bss.flatten ++ r) = .ok (ts, r) := by
   induction h with
@@ -991,7 +1091,7 @@ theorem decN_readsAll {x : Ext} {c : Cache} {d : Nat} {bss : List Bytes} {ts : L
     rw [ih r f (by omega)]
 
 /-- a small tuple of elements that read as terms reads as the tuple -/
-theorem readsAt_tuple (x : Ext) (c : Cache) (d : Nat) (hd : d ≤ MAX_NESTING_DEPTH) (bss : List Bytes) (ts : List Term)
+theorem readsAt_tuple (x : Ext) (c : PosTable) (d : Nat) (hd : d ≤ MAX_NESTING_DEPTH) (bss : List Bytes) (ts : List Term)
     (h : ReadsAll x c (d + 1) bss ts) (hn : bss.length < 256) :
     ReadsAt x c d (104 :: UInt8.ofNat bss.length :: bss.flatten) (.tuple ts) := by
   intro r fuel hf
@@ -1003,13 +1103,6 @@ theorem readsAt_tuple (x : Ext) (c : Cache) (d : Nat) (hd : d ≤ MAX_NESTING_DE
   simp [hd', ownedOnlyTags, rdU_byte _ _ hn, this]
 
 /-! ### a message in two fragments whose second piece is empty -/
-
-theorem two_fragments_asm (a : Frag.Assembler) (seq : Nat) (first : Bytes) (h0 : Frag.lookup seq a.pending = none) :
-    (a.startFragment 0 seq 2 none first).2 = none ∧
-    ((a.startFragment 0 seq 2 none first).1.addFragment 0 seq 1 []).2 = some first := by
-  simp [Frag.Assembler.startFragment, Frag.Assembler.addFragment, h0, Frag.MAX_FRAGMENT_COUNT, Frag.FragMsg.new,
-    Frag.MAX_FRAGMENTS_VEC, Frag.FragMsg.addFragment, Frag.FragMsg.place, Frag.FragMsg.isComplete,
-    Frag.FragMsg.reassemble, Frag.lookup_insertKey_self, List.replicate]
 
 theorem deliver_none (x : Ext) (tbl : Control.Table) (s : St) (r : Frag.Assembler × Option Bytes) (h : r.2 = none) :
     deliver x tbl s r = ({ cache := s.cache, asm := r.1 }, none) := by
@@ -1026,33 +1119,52 @@ theorem deliver_some (x : Ext) (tbl : Control.Table) (s : St) (r : Frag.Assemble
   subst h
   rfl
 
-/-- two fragments, the second one empty: nothing at the first frame, and at the second exactly what the unfragmented
-message gives (result and atom cache) -/
-theorem recv_two_fragments (x : Ext) (tbl : Control.Table) (s : St) (seq : Nat) (nb : UInt8) (rest : Bytes)
-    (hs : seq < 2 ^ 64) (h0 : Frag.lookup seq s.asm.pending = none) :
-    (recv x tbl s (131 :: 69 :: (be64 seq ++ be64 2 ++ nb :: rest))).2 = none ∧
-    (recv x tbl (recv x tbl s (131 :: 69 :: (be64 seq ++ be64 2 ++ nb :: rest))).1 (fragCont seq 1 [])).2 =
-      (recv x tbl s (131 :: 68 :: nb :: rest)).2 ∧
-    (recv x tbl (recv x tbl s (131 :: 69 :: (be64 seq ++ be64 2 ++ nb :: rest))).1 (fragCont seq 1 [])).1.cache =
-      (recv x tbl s (131 :: 68 :: nb :: rest)).1.cache := by
-  obtain ⟨ha, hb⟩ := two_fragments_asm s.asm seq (131 :: 68 :: nb :: rest) h0
-  have e1 : recv x tbl s (131 :: 69 :: (be64 seq ++ be64 2 ++ nb :: rest)) =
-      ({ cache := s.cache, asm := (s.asm.startFragment 0 seq 2 none (131 :: 68 :: nb :: rest)).1 }, none) := by
-    have : recv x tbl s (131 :: 69 :: (be64 seq ++ be64 2 ++ nb :: rest)) =
-        recvFragHeader x tbl s (131 :: 69 :: (be64 seq ++ be64 2 ++ nb :: rest)) := by simp [recv]
+/-- the assembler on a two-fragment sequence whose continuation is empty, a `cleanup_expired` in between that comes
+before the sequence times out -/
+theorem two_fragments_asm (a : Frag.Assembler) (seq now1 now2 : Nat) (first : Bytes) (h0 : Frag.lookup seq a.pending = none)
+    (hlive : now2 - now1 ≤ a.timeout) :
+    (a.startFragment now1 seq 2 none first).2 = none ∧
+    (((a.startFragment now1 seq 2 none first).1.cleanupExpired now2).1.addFragment now2 seq 1 []).2 = some first := by
+  have hexp : ¬ (a.timeout < now2 - now1) := by omega
+  simp [Frag.Assembler.startFragment, Frag.Assembler.addFragment, Frag.Assembler.cleanupExpired, h0, Frag.MAX_FRAGMENT_COUNT,
+    Frag.FragMsg.new, Frag.MAX_FRAGMENTS_VEC, Frag.FragMsg.addFragment, Frag.FragMsg.place, Frag.FragMsg.isComplete,
+    Frag.FragMsg.reassemble, Frag.FragMsg.isExpired, Frag.insertKey, Frag.lookup, List.filter_cons, hexp, List.replicate]
+
+/-- two fragments, the second one empty, the second frame read before the sequence times out: nothing at the first frame,
+and at the second exactly what the unfragmented message gives at that moment (result and atom cache) -/
+theorem recv_two_fragments (x : Ext) (tbl : Control.Table) (now1 now2 : Nat) (s : St) (seq : Nat) (nb : UInt8) (rest : Bytes)
+    (hs : seq < 2 ^ 64) (h0 : Frag.lookup seq s.asm.pending = none) (hlive : now2 - now1 ≤ s.asm.timeout) :
+    (recv x tbl now1 s (131 :: 69 :: (be64 seq ++ be64 2 ++ nb :: rest))).2 = none ∧
+    (recv x tbl now2 (recv x tbl now1 s (131 :: 69 :: (be64 seq ++ be64 2 ++ nb :: rest))).1 (fragCont seq 1 [])).2 =
+      (recv x tbl now2 s (131 :: 68 :: nb :: rest)).2 ∧
+    (recv x tbl now2 (recv x tbl now1 s (131 :: 69 :: (be64 seq ++ be64 2 ++ nb :: rest))).1 (fragCont seq 1 [])).1.cache =
+      (recv x tbl now2 s (131 :: 68 :: nb :: rest)).1.cache := by
+  have h0' := lookup_expire_none now1 s seq h0
+  have htm : (expire now1 s).asm.timeout = s.asm.timeout := rfl
+  obtain ⟨ha, hb⟩ := two_fragments_asm (expire now1 s).asm seq now1 now2 (131 :: 68 :: nb :: rest) h0' (by rw [htm]; exact hlive)
+  have e1 : recv x tbl now1 s (131 :: 69 :: (be64 seq ++ be64 2 ++ nb :: rest)) =
+      ({ cache := s.cache, asm := ((expire now1 s).asm.startFragment now1 seq 2 none (131 :: 68 :: nb :: rest)).1 }, none) := by
+    have : recv x tbl now1 s (131 :: 69 :: (be64 seq ++ be64 2 ++ nb :: rest)) =
+        recvFragHeader x tbl now1 (expire now1 s) (131 :: 69 :: (be64 seq ++ be64 2 ++ nb :: rest)) := by simp [recv, dispatch]
     rw [this, recvFragHeader, decodeFragmentHeader_ok seq 2 nb rest hs (by omega)]
     have h20 : ¬ (2 : Nat) = 0 := by omega
     simp only [h20, ↓reduceIte, UInt8.ofNat_toNat]
-    exact deliver_none x tbl s _ ha
-  have e2 : ∀ s1 : St, recv x tbl s1 (fragCont seq 1 []) = deliver x tbl s1 (s1.asm.addFragment 0 seq 1 []) := by
+    exact deliver_none x tbl _ _ ha
+  have e2 : ∀ s1 : St, recv x tbl now2 s1 (fragCont seq 1 []) =
+      deliver x tbl (expire now2 s1) ((expire now2 s1).asm.addFragment now2 seq 1 []) := by
     intro s1
-    have : recv x tbl s1 (fragCont seq 1 []) = recvFragCont x tbl s1 (fragCont seq 1 []) := by simp [recv, fragCont]
+    have : recv x tbl now2 s1 (fragCont seq 1 []) = recvFragCont x tbl now2 (expire now2 s1) (fragCont seq 1 []) := by
+      simp [recv, dispatch, fragCont]
     rw [this, recvFragCont]
     have := decodeFragmentCont_ok seq 1 [] hs (by omega)
     simp only [fragCont]
     rw [this]
     simp
-  rw [e1, e2, deliver_some x tbl _ _ _ hb, recv_header_frame, recvHeader, decodeCompleteFragment_header]
+  have hb' : ((expire now2 { cache := s.cache, asm := ((expire now1 s).asm.startFragment now1 seq 2 none
+      (131 :: 68 :: nb :: rest)).1 }).asm.addFragment now2 seq 1 []).2 = some (131 :: 68 :: nb :: rest) := hb
+  rw [e1, e2]
+  dsimp only
+  rw [deliver_some x tbl _ _ _ hb', recv_header_frame, recvHeader, decodeCompleteFragment_header]
   exact ⟨rfl, rfl, rfl⟩
 
 end Edp.Recv
